@@ -8,10 +8,12 @@ claims={
  "C07":("All well-formed signature-database streams up to the byte bound (every byte and the length symbolic, restricted only by a reference recogniser of the UEFI layout) are accepted, decode to exactly the specified lists/owners/data, and re-encode to the same bytes (Bytes and Marshal/Unmarshal routes).","2 C07"),
  "C08":("For every byte string up to the bound (every byte and the length symbolic): if decoding succeeds, the lists tile the whole input, satisfy the EFI_SIGNATURE_LIST size equations and hold exactly the input bytes at the specified offsets; decided by SMT on every path.","2 C08"),
  "C10":("Descriptor and WIN_CERTIFICATE decoding consumes exactly the declared length, recovers every field, leaves the payload, and both round trips are identities, for every byte string up to the bound (all fields symbolic).","2 C10"),
+ "C14":("One harness per variable/key-file decoder entry point on a fully symbolic byte string: on every path no panic, no log.Fatal/os.Exit, no allocation above 8*len+8192, termination within the unwinding bounds; violations are replayed natively (panic / exit status / measured allocation).","2 C14"),
  "C17":("GUID conversions decided for all 2^128 values in one symbolic run (Format, both parse directions, byte forms, in-structure layout, equality).","2 C17"),
  "C18":("Boot-order decoding decided for all 65 536 values of every entry symbolically: names are Boot + four upper-case hex digits.","2 C18"),
 }
 partial={
+ "C14":" PEM key/certificate readers are not covered (encoding/pem, crypto/x509 not interpreted); the static enumeration of exit call sites is not yet part of this check.",
  "C17":" UTF-16 string conversions are not yet covered by this check.",
  "C18":" Load-option decoding is not yet covered by this check.",
 }
